@@ -24,6 +24,122 @@ func runC15Gaps2(c *eng.Ctx) {
 	c15gSmallValidators(c)
 	c15gIdentityGlobs(c)
 	c15gLeafBehaviourTable(c)
+	c15gFlagReset(c)
+}
+
+// ---- C15.3: a match flag judges one requested value only. Wherever a
+// validator tests a boolean flag variable inside a loop (the loop over the
+// requested values / names), the value tested does not come in over a back
+// edge of a loop that contains the test: on every path from one iteration's
+// verdict to the next the flag is assigned afresh (the constant false) before
+// it can be set by a match. A flag initialised outside that loop keeps the
+// `true` of an earlier value and lets every later value pass unchecked
+// (seed C15-c: `valid := false` hoisted out of the per-value loop of
+// validateOtherSANs together with the per-OID lookup).
+func c15gFlagReset(c *eng.Ctx) {
+	c.Clause("R8", "C15.3")
+	for _, h := range []struct {
+		fn    string
+		floor int // verdict tests inside a loop expected today
+	}{
+		{"pki.validateOtherSANs", 1}, {"pki.validateNames", 1}, {"pki.validateUserId", 0}, {"pki.validateSerialNumber", 0}, {"pki.validateURISAN", 0},
+	} {
+		f := c.Fn(h.fn)
+		if f == nil {
+			continue
+		}
+		// natural loop of the back edge q -> b: b and every block reaching q without passing b
+		loopOf := func(q, b *ssa.BasicBlock) map[*ssa.BasicBlock]bool {
+			in := map[*ssa.BasicBlock]bool{b: true}
+			work := []*ssa.BasicBlock{q}
+			for len(work) > 0 {
+				x := work[len(work)-1]
+				work = work[:len(work)-1]
+				if in[x] {
+					continue
+				}
+				in[x] = true
+				work = append(work, x.Preds...)
+			}
+			return in
+		}
+		n, bad := 0, false
+		type verdict struct {
+			tests int
+			pos   token.Pos
+			fact  string
+		}
+		perFlag := map[string]*verdict{}
+		var order []string
+		for _, blk := range f.Blocks {
+			ifi := eng.IfOf(blk)
+			if ifi == nil {
+				continue
+			}
+			p, ok := eng.Normalize(ifi.Cond).Val.(*ssa.Phi)
+			if !ok || eng.VarName(p) == "" || p.Type().Underlying().String() != "bool" {
+				continue
+			}
+			name := eng.VarName(p)
+			// is the test inside any loop at all?
+			inLoop := false
+			for _, b := range f.Blocks {
+				for _, q := range b.Preds {
+					if b.Dominates(q) && loopOf(q, b)[blk] {
+						inLoop = true
+					}
+				}
+			}
+			if !inLoop {
+				continue
+			}
+			n++
+			v := perFlag[name]
+			if v == nil {
+				v = &verdict{pos: p.Pos()}
+				perFlag[name] = v
+				order = append(order, name)
+			}
+			v.tests++
+			seen := map[*ssa.Phi]bool{}
+			var carried *ssa.Phi
+			var walk func(x *ssa.Phi)
+			walk = func(x *ssa.Phi) {
+				if seen[x] || carried != nil {
+					return
+				}
+				seen[x] = true
+				for i, e := range x.Edges {
+					q := x.Block().Preds[i]
+					if x.Block().Dominates(q) && loopOf(q, x.Block())[blk] {
+						carried = x
+						return
+					}
+					if ep, ok := e.(*ssa.Phi); ok && eng.VarName(ep) == name {
+						walk(ep)
+					}
+				}
+			}
+			walk(p)
+			if carried != nil && v.fact == "" {
+				v.pos = ifi.Pos()
+				v.fact = "the value of " + name + " tested inside the loop can be the one left by the previous iteration (it is merged at the head of an enclosing loop, " + eng.Expr(carried) + ", instead of being set to false inside it): once one requested value matched, the following ones are accepted without being compared with the role's list"
+			}
+		}
+		for _, name := range order {
+			v := perFlag[name]
+			site := "flag " + name + " tested in a loop is assigned afresh in every iteration"
+			if v.fact != "" {
+				bad = true
+				c.Violation(f, site, v.pos, v.fact, nil)
+			} else {
+				c.OK(f, site, v.pos, "no value of "+name+" reaches any of its "+strconv.Itoa(v.tests)+" test(s) over a back edge of a loop containing the test")
+			}
+		}
+		if !bad && c.Floor(f, "flag tests inside a loop", n, h.floor) && n == 0 {
+			c.OK(f, "flag tested in a loop is assigned afresh in every iteration", f.Pos(), "no boolean flag variable is tested inside a loop")
+		}
+	}
 }
 
 // ---- C15.7: issue/:role replaces the role's key type/bits by the request's only for key_type=any roles
